@@ -65,7 +65,15 @@ class HwCheck:
         self.input_constraints = []   # for cosim/replay random stimulus (callables: dict->bool) unused by proofs
     # ---- terms
     def v(self, sig): return self.ts.rd(sig)
-    def n(self, sig): return self.nxt.get(sig, self.v(sig))
+    def n(self, sig):
+        """value of sig in the next cycle: registers -> next-state term; comb outputs -> their function of next state and
+        fresh next-cycle inputs; constants -> themselves; free inputs have no next value"""
+        if sig in self.nxt: return self.nxt[sig]
+        for cd, nx in self.ts.next.items():
+            if sig in nx: return nx[sig]
+        if sig in self.ts.comb_targets: return self.primed(self.v(sig))
+        if sig in self.ts.inputs: raise ValueError(f"n() of a free input {sig!r}")
+        return self.v(sig)
     def inline_next(self, sig):
         """value of a comb output in the next cycle (same next-cycle inputs are NOT assumed: inputs become fresh)"""
         return self.primed(self.v(sig))
@@ -139,8 +147,11 @@ class HwCheck:
             if str(x) in invars: sub.append((x, z3.Const(str(x) + "'", x.sort())))
         return z3.substitute(e, *sub)
     def base(self): return self.ts.comb_constraints() + self.assumes
+    def _ginit(self, g):
+        """ghost initial value: an int, or a z3 term over rigid constants (e.g. initial memory content at the tracked address)"""
+        return K(g[1], g[0].size()) if isinstance(g[1], int) else g[1]
     def init_eqs(self):
-        return self.ts.init_constraints() + [g[0] == K(g[1], g[0].size()) for g in self.ghosts.values()]
+        return self.ts.init_constraints() + [g[0] == self._ginit(g) for g in self.ghosts.values()]
     def _solve(self, cs, timeout_ms=None, order=None):
         order = order or getattr(self, "solver_order", ("api", "z3old", "cvc5"))
         st, m, be, secs = solvers.solve(cs, timeout_ms or self.timeout_ms, order=order)
@@ -254,7 +265,7 @@ class HwCheck:
                 n = str(x)
                 if n in gby and n not in need: need.add(n); todo.append(gby[n][2])
         pairs = [(a, e) for a, e in self._pairs() if not (str(a) in gby and str(a) not in need)]
-        for c in self.ts.init_constraints() + [g[0] == K(g[1], g[0].size()) for g in self.ghosts.values() if str(g[0]) in need]: s.add(at(c, 0))
+        for c in self.ts.init_constraints() + [g[0] == self._ginit(g) for g in self.ghosts.values() if str(g[0]) in need]: s.add(at(c, 0))
         basec = self.base()
         for k in range(depth + 1):
             for c in basec: s.add(at(c, k))
@@ -341,8 +352,8 @@ class HwCheck:
         for e in exprs:
             for x in get_vars(e): allv[str(x)] = x
         rows = self.real_sim(trace, list(allv))
-        ghost = {str(g[0]): g[1] for g in self.ghosts.values()}
         consts = {f"c_{n}": val for n, val in wit.get("consts", {}).items()}
+        ghost = self._ghost_init_values(consts)
         first_bad = None; log = []; assume_bad = None
         for k, vals in enumerate(rows):
             sub = []
@@ -363,6 +374,15 @@ class HwCheck:
                 log.append((k, "ghost not concrete")); break
             ghost = newg
         return first_bad, dict(log=log, assume_violated_at=assume_bad)
+    def _ghost_init_values(self, consts):
+        out = {}
+        for g in self.ghosts.values():
+            if isinstance(g[1], int): out[str(g[0])] = g[1]
+            else:
+                sub = [(c, z3.BitVecVal(consts.get(str(c), 0), c.size())) for c in get_vars(g[1])]
+                val = z3.simplify(z3.substitute(g[1], *sub)) if sub else z3.simplify(g[1])
+                out[str(g[0])] = val.as_long()
+        return out
     def cosim(self, cycles=None, seed=0):
         """random co-simulation: real simulator vs concrete evaluation of the extracted equations; returns #mismatches"""
         cycles = cycles or self.cosim_cycles
@@ -553,8 +573,8 @@ class HwCheck:
         for e in gexprs:
             for x in get_vars(e): names[str(x)] = x
         rows = self.real_sim(trace, list(names))
-        ghost = {str(g[0]): g[1] for g in self.ghosts.values()}
         consts = {f"c_{n}": val for n, val in wit.get("consts", {}).items()}
+        ghost = self._ghost_init_values(consts)
         subs = []
         for k, vals in enumerate(rows):
             sub = []
